@@ -110,8 +110,13 @@ func (c *coalescing) Run(ctx context.Context, ch chan<- struct{}) error {
 		return errors.New("already running")
 	}
 
-	// Prevent wg race condition on Close and Run.
+	// Prevent wg race condition on Close and Run: once closed nothing is added
+	// to the wait group any more, so Close can wait without holding the lock.
 	c.lock.Lock()
+	if c.closed.Load() {
+		c.lock.Unlock()
+		return nil
+	}
 	c.wg.Add(1)
 	c.lock.Unlock()
 	defer c.wg.Done()
@@ -229,6 +234,9 @@ func (c *coalescing) reset() {
 func (c *coalescing) Add() {
 	c.lock.Lock()
 	defer c.lock.Unlock()
+	if c.closed.Load() {
+		return
+	}
 	c.pendingEvents++
 	c.wg.Add(1)
 	go func() {
@@ -241,15 +249,15 @@ func (c *coalescing) Add() {
 }
 
 func (c *coalescing) Close() {
-	defer func() {
-		// Prevent wg race condition on Close and Run.
-		c.lock.Lock()
-		c.wg.Wait()
-		c.lock.Unlock()
-	}()
+	// The closed flag is set under the lock; Run and Add check it under the same
+	// lock before touching the wait group. Waiting must not hold the lock: the
+	// run loop needs it to get back to its select and see closeCh.
+	c.lock.Lock()
 	if c.closed.CompareAndSwap(false, true) {
 		close(c.closeCh)
 	}
+	c.lock.Unlock()
+	c.wg.Wait()
 }
 
 var _ RateLimiter = (*coalescing)(nil)
